@@ -599,7 +599,8 @@ func coordinator(d *Driver, tier string) int {
 	var lines []string
 	nUnlisted := 0
 	repDir := filepath.Join(Root(), "replays", d.ID)
-	var unreproduced []string
+	var unreproduced, historySkipped []string
+	historyConfirmed, historyTried := 0, 0
 	for _, s := range sigs {
 		cands := vio[s]
 		sort.Slice(cands, func(i, j int) bool { return cands[i].Ord < cands[j].Ord })
@@ -653,9 +654,21 @@ func coordinator(d *Driver, tier string) int {
 				break
 			}
 		}
+		if !confirmed && len(cands) > 0 && cands[0].Worker != "" && (historyConfirmed >= 2 || historyTried >= 4) {
+			// two history-dependent signatures are already confirmed (the verdict is decided), or four shard
+			// sequences were re-run without reproducing anything; re-running one per further signature
+			// would only cost time. Without a confirmed violation the run ends inconclusive (exit 2).
+			os.Remove(file)
+			historySkipped = append(historySkipped, s)
+			if historyConfirmed == 0 {
+				unreproduced = append(unreproduced, s)
+			}
+			continue
+		}
 		if !confirmed && len(cands) > 0 && cands[0].Worker != "" {
 			// The case alone does not reproduce. Does the shard's case sequence up to it? Then the failure is
 			// real and depends on earlier calls in the same process; the sequence is the replay.
+			historyTried++
 			cand := cands[0]
 			cand.History = true
 			cand.Desc += " -- this case alone does not fail in a fresh process; the case sequence of worker " + cand.Worker + " up to it does, identically each time: the result depends on earlier calls into the code under test in the same process"
@@ -676,6 +689,7 @@ func coordinator(d *Driver, tier string) int {
 			}
 			if same == 2 {
 				v, confirmed = cand, true
+				historyConfirmed++
 			}
 		}
 		if !confirmed {
@@ -735,8 +749,9 @@ func coordinator(d *Driver, tier string) int {
 		"max_depth":                m.MaxDepth,
 		"violation_signatures":     m.VioCounts,
 		"unreproduced_signatures":  unreproduced,
-		"workers":                  n,
-		"notes":                    m.Notes,
+		"history_dependent_signatures_not_examined": historySkipped,
+		"workers": n,
+		"notes":   m.Notes,
 	}
 	if m.States > 0 && m.Transitions > 0 {
 		// states/transitions of the explored tree or graph, counted by the driver;
